@@ -15,6 +15,7 @@ Terms (symbolic expressions reconstructed from MIR temporaries) are nested tuple
   ('phi', [terms])               several reaching definitions
   ('unknown',)
 """
+import os
 import re
 from collections import defaultdict, deque
 
@@ -25,6 +26,13 @@ class Program:
     def __init__(self, facts):
         self.facts = facts
         self.bodies = {}
+        # helpers that are not part of the reviewed function inventory are inlined into their callers (see inline.py)
+        if not facts.get("_inlined"):
+            import inline as _inline
+            inv = _inline.load_inventory(os.path.join(os.path.dirname(os.path.abspath(__file__)), "..", "rules", "baseline_functions.txt"))
+            facts["_inline_report"] = _inline.run(facts, inv)
+            facts["_inlined"] = True
+        self.inline_report = facts.get("_inline_report", {})
         for b in facts["bodies"]:
             self.bodies[b["id"]] = Body(self, b)
         self.adts = {a["path"]: a for a in facts["adts"]}
@@ -259,6 +267,45 @@ class Body:
         given the resolved switch target as its successor.  This removes the infeasible paths a path-insensitive
         reading of `let m = matches!(..); if !m {..}` would report."""
         threads = {}
+        # enum temporaries built and matched at once (`Poll::Ready(v)` produced by an inlined async helper and tested by the
+        # await loop): a block whose last statement stores variant V into L and then reaches `d = discr(L); switch d`
+        for s in range(self.n):
+            bl = self.blocks[s]
+            t = bl["t"]
+            if t["k"] != "switch" or len(bl["s"]) != 1:
+                continue
+            st0 = bl["s"][0]
+            rv0 = st0["rv"]
+            dpl = t["d"].get("c") or t["d"].get("m")
+            if rv0["r"] != "discr" or dpl != st0["lhs"] or len(rv0["p"]) != 1:
+                continue
+            L = rv0["p"][0]
+            table = {name: idx for idx, name in rv0.get("vars", [])}
+            for x in range(self.n):
+                bx = self.blocks[x]
+                if not bx["s"] or bx["t"]["k"] != "goto":
+                    continue
+                last = bx["s"][-1]
+                if last["lhs"] != [L] or last["rv"]["r"] != "aggr" or last["rv"].get("variant") not in table:
+                    continue
+                y = x
+                okc = False
+                for _ in range(6):
+                    nx = self.blocks[y]["t"].get("to", -1) if self.blocks[y]["t"]["k"] == "goto" else -1
+                    if nx == s:
+                        okc = True
+                        break
+                    if nx < 0 or self.blocks[nx]["s"]:
+                        break
+                    y = nx
+                if not okc:
+                    continue
+                idx = table[last["rv"]["variant"]]
+                tgt = None
+                for tv, tg in t["targets"]:
+                    if tv == idx:
+                        tgt = tg
+                threads[x] = tgt if tgt is not None else t["otherwise"]
         for s in range(self.n):
             bl = self.blocks[s]
             t = bl["t"]
@@ -343,13 +390,189 @@ class Body:
         self.succs()
         return self._pred
 
+    # ------------------------------------------------------------ path-sensitive reachability (known enum variants)
+    TRACK_ADTS = ("std::result::Result", "std::option::Option", "std::ops::ControlFlow", "std::task::Poll")
+
+    def _ps_info(self):
+        """Which locals are worth tracking: a `switch` on `discr(L)` (or on a bool L) can be resolved along a path when L was
+        assigned a constant variant (`L = Err(e)`, `L = Poll::Ready(v)`, `L = true`) on that path, possibly through moves and
+        `Try::branch`.  This is what makes `helper(..)?` transparent after the helper was inlined.  Returns the set of
+        tracked locals (empty for almost every body: then the plain reachability is used)."""
+        if getattr(self, "_ps", None) is not None:
+            return self._ps
+        defs = self.defs()
+        tracked = set()
+        for sb in range(self.n):
+            t = self.blocks[sb]["t"]
+            if t["k"] != "switch":
+                continue
+            dpl = t["d"].get("c") or t["d"].get("m")
+            if not dpl or len(dpl) != 1:
+                continue
+            roots = [dpl[0]]
+            for st in self.blocks[sb]["s"]:
+                if st["lhs"] == dpl and st["rv"]["r"] == "discr" and len(st["rv"]["p"]) >= 1:
+                    roots.append(st["rv"]["p"][0])
+            sl = set()
+            work = list(roots)
+            const = False
+            n = 0
+            while work and n < 60:
+                n += 1
+                l = work.pop()
+                if l in sl:
+                    continue
+                sl.add(l)
+                for (bi, si, rv, lhs) in defs.get(l, ()):
+                    if len(lhs) != 1:
+                        continue
+                    if si is None:
+                        if callee_name(rv).endswith("::from_residual"):
+                            const = True     # `?` error exit: always the Err / None variant
+                        if callee_name(rv).endswith("Try>::branch") and rv["args"]:
+                            q = rv["args"][0].get("m") or rv["args"][0].get("c")
+                            if q and len(q) == 1:
+                                work.append(q[0])
+                        continue
+                    r = rv["r"]
+                    if r == "aggr" and rv.get("kind") == "adt" and rv.get("adt") in self.TRACK_ADTS:
+                        const = True
+                    elif r == "use":
+                        o = rv["o"]
+                        if "k" in o and o["k"].get("v") in (True, False) and o["k"].get("ty") == "bool":
+                            const = True
+                        q = o.get("m") or o.get("c")
+                        if q and len(q) == 1:
+                            work.append(q[0])
+                    elif r == "discr" and len(rv["p"]) == 1:
+                        work.append(rv["p"][0])
+                    elif r == "un" and rv["op"] == "Not":
+                        q = rv["o"].get("m") or rv["o"].get("c")
+                        if q and len(q) == 1:
+                            work.append(q[0])
+            if const:
+                tracked |= sl
+        # the existing threading of bool temporaries already covers unnamed bool flags; keep tracking to what it cannot do
+        self._ps = tracked
+        return tracked
+
+    def _ps_step(self, x, state):
+        """successors of block x under `state` (dict local -> known value) : [(succ, new state)]"""
+        T = self._ps_info()
+        st = dict(state)
+        bl = self.blocks[x]
+        for s_ in bl["s"]:
+            lhs = s_["lhs"]
+            l = lhs[0]
+            rv = s_["rv"]
+            if len(lhs) != 1:
+                if l in st:
+                    del st[l]
+                continue
+            val = None
+            r = rv["r"]
+            if l in T:
+                if r == "aggr" and rv.get("kind") == "adt" and rv.get("adt") in self.TRACK_ADTS:
+                    val = ("v", rv.get("variant"))
+                elif r == "use":
+                    o = rv["o"]
+                    if "k" in o and o["k"].get("v") in (True, False) and o["k"].get("ty") == "bool":
+                        val = ("b", o["k"]["v"])
+                    else:
+                        q = o.get("m") or o.get("c")
+                        if q and len(q) == 1 and q[0] in st:
+                            val = st[q[0]]
+                elif r == "discr" and len(rv["p"]) == 1 and rv["p"][0] in st and st[rv["p"][0]][0] == "v":
+                    table = {name: idx for idx, name in rv.get("vars", [])}
+                    if st[rv["p"][0]][1] in table:
+                        val = ("i", table[st[rv["p"][0]][1]])
+                elif r == "un" and rv["op"] == "Not":
+                    q = rv["o"].get("m") or rv["o"].get("c")
+                    if q and len(q) == 1 and q[0] in st and st[q[0]][0] == "b":
+                        val = ("b", not st[q[0]][1])
+            # a moved-out or mutably borrowed tracked local is forgotten
+            if r == "use" and "m" in rv["o"] and len(rv["o"]["m"]) == 1 and rv["o"]["m"][0] in st and rv["o"]["m"][0] != l:
+                del st[rv["o"]["m"][0]]
+            if r in ("ref", "rawptr") and rv.get("mut") and rv["p"] and rv["p"][0] in st:
+                del st[rv["p"][0]]
+            if val is not None:
+                st[l] = val
+            elif l in st:
+                del st[l]
+        t = bl["t"]
+        k = t["k"]
+        if k == "call":
+            d = t["dest"]
+            val = None
+            if len(d) == 1 and d[0] in T and callee_name(t).endswith("Try>::branch") and t["args"]:
+                q = t["args"][0].get("m") or t["args"][0].get("c")
+                if q and len(q) == 1 and q[0] in st and st[q[0]][0] == "v":
+                    val = ("v", {"Ok": "Continue", "Some": "Continue", "Err": "Break", "None": "Break"}.get(st[q[0]][1]))
+                    if val[1] is None:
+                        val = None
+            if len(d) == 1 and d[0] in T and callee_name(t).endswith("::from_residual"):
+                ty = self.locals[d[0]] if d[0] < len(self.locals) else ""
+                if ty.startswith("std::result::Result<"):
+                    val = ("v", "Err")
+                elif ty.startswith("std::option::Option<"):
+                    val = ("v", "None")
+            for a in t["args"]:
+                q = a.get("m")
+                if q and len(q) == 1 and q[0] in st:
+                    del st[q[0]]
+            if d and d[0] in st:
+                del st[d[0]]
+            if val is not None:
+                st[d[0]] = val
+        if k == "switch":
+            dpl = t["d"].get("c") or t["d"].get("m")
+            if dpl and len(dpl) == 1 and dpl[0] in st:
+                v = st[dpl[0]]
+                want = v[1] if v[0] == "i" else (1 if v[1] else 0) if v[0] == "b" else None
+                if want is not None:
+                    tgt = None
+                    for tv, tg in t["targets"]:
+                        if tv == want:
+                            tgt = tg
+                    return [(tgt if tgt is not None else t["otherwise"], st)]
+        return [(s2, st) for s2 in self.succs()[x]]
+
+    def _reachable_ps(self, start, avoid_blocks, avoid_edges):
+        seen = set()
+        out = set()
+        work = [(start, ())]
+        per_block = defaultdict(int)
+        while work:
+            x, stt = work.pop()
+            if (x, stt) in seen:
+                continue
+            seen.add((x, stt))
+            out.add(x)
+            per_block[x] += 1
+            st = dict(stt)
+            if per_block[x] > 24:
+                st = {}          # too many distinct states at one block: stop distinguishing (sound: more paths)
+            for s2, ns in self._ps_step(x, st):
+                if s2 is None or s2 < 0 or s2 in avoid_blocks or (x, s2) in avoid_edges:
+                    continue
+                key = tuple(sorted(ns.items()))
+                if (s2, key) not in seen:
+                    work.append((s2, key))
+        return out
+
     def reachable(self, start=0, avoid_blocks=(), avoid_edges=()):
-        """blocks reachable from `start` (normal edges) without entering avoid_blocks / using avoid_edges."""
+        """blocks reachable from `start` (normal edges) without entering avoid_blocks / using avoid_edges.  When the body
+        assigns constant enum variants that are matched later (see _ps_info) the walk is path-sensitive for those locals."""
         succ = self.succs()
         avoid_blocks = set(avoid_blocks)
         avoid_edges = set(avoid_edges)
         if start in avoid_blocks:
             return set()
+        if self._ps_info():
+            ck = ("ps", start, frozenset(avoid_blocks), frozenset(avoid_edges))
+            if ck not in self._reach_cache:
+                self._reach_cache[ck] = self._reachable_ps(start, avoid_blocks, avoid_edges)
+            return set(self._reach_cache[ck])
         seen = {start}
         dq = deque([start])
         while dq:
@@ -435,8 +658,12 @@ class Body:
             if x == a:
                 return True
             if x == 0:
-                return False
+                break
             x = idom[x]
+        # not a dominator of the plain CFG: it may still be one once infeasible paths are discarded
+        if self._ps_info() and b in self.live_blocks():
+            return b not in self.reachable(0, avoid_blocks={a})
+        return False
 
     def dom_chain(self, b):
         idom = self.dominators()
@@ -858,7 +1085,13 @@ class Body:
         are kept and this one removed means the edge dominates b.
         """
         out = []
-        for s in self.dom_chain(b):
+        cands = list(self.dom_chain(b))
+        if self._ps_info() and b in self.live_blocks():
+            # switches that dominate b only when infeasible paths are discarded (inside inlined helpers)
+            extra = [sb for sb in sorted(self.live_blocks()) if self.blocks[sb]["t"]["k"] == "switch" and sb not in cands
+                     and b not in self.reachable(0, avoid_blocks={sb})]
+            cands = cands + extra
+        for s in cands:
             t = self.blocks[s]["t"]
             if t["k"] != "switch" or s == b and False:
                 continue
